@@ -349,7 +349,10 @@ def none_safe(func, use, text, def_stmt=None):
     src_ids = {s.id for s in srcs}
     # a use inside the defining statement's own test (while x.y: x = nav()) is reached after the def
     p = c.reach(srcs, lambda n: n.id in ids, block_node=lambda n: is_def(n) and n.id not in ids, block_edge=block_edge)
-    return None if p is None else c.describe(p)
+    if p is None:
+        return None
+    # a path may be an artefact of taking two tests of the same text differently (`if not e and x is None: raise` ... `if e: .. else: x[0]`)
+    return consistent_reach(func, srcs, lambda n: n.id in ids, block_node=lambda n: is_def(n) and n.id not in ids, block_edge=block_edge)
 
 
 def none_safe_chain(func, use, text):
@@ -709,3 +712,62 @@ def possibly_unbound(func):
                 chain.reverse()
                 out.append((n, nm, c.describe(chain + [(n, None)])))
     return out
+
+
+def stable_names(func):
+    """names whose value cannot change between two tests: parameters never re-bound and locals bound at exactly one non-loop place"""
+    c = cfg_of(func)
+    assigned = {}
+    for n in c.nodes:
+        for nm in _bound_names(n):
+            assigned.setdefault(nm, []).append(n)
+    ps = set(params(func))
+    st = {p_ for p_ in ps if p_ not in assigned}
+    st |= {k for k, v in assigned.items() if len(v) == 1 and v[0].kind != 'for' and k not in ps}
+    return st
+
+
+def consistent_reach(func, sources, is_target, block_node=None, block_edge=None, kinds=None):
+    """like CFG.reach, but two tests with the same text over stable names and without calls are taken the same way along a path.
+    Returns a description of a witness path or None."""
+    from collections import deque
+    c = cfg_of(func)
+    stable = stable_names(func)
+    start = [(s_, frozenset()) for s_ in sources]
+    prev = {(s_.id, frozenset()): None for s_ in sources}
+    dq = deque(start)
+    while dq:
+        cur, known = dq.popleft()
+        for m, k in cur.succ:
+            if kinds is not None and k not in kinds:
+                continue
+            if block_edge is not None and block_edge(cur, k, m):
+                continue
+            kn = known
+            if cur.kind == 'test' and k in ('T', 'F') and cur.ast is not None:
+                names = {x.id for x in ast.walk(cur.ast) if isinstance(x, ast.Name)}
+                pure = not any(isinstance(x, (ast.Call, ast.Await, ast.NamedExpr)) for x in ast.walk(cur.ast))
+                if pure and names and names <= stable:
+                    t = norm(cur.ast)
+                    d = dict(known)
+                    if t in d and d[t] != (k == 'T'):
+                        continue
+                    d[t] = (k == 'T')
+                    kn = frozenset(d.items())
+            if is_target(m):
+                chain = [(cur, k)]
+                key = (cur.id, known)
+                while prev.get(key) is not None:
+                    pid, pknown, pk = prev[key]
+                    chain.append((next(x for x in c.nodes if x.id == pid), pk))
+                    key = (pid, pknown)
+                chain.reverse()
+                return c.describe(chain + [(m, None)])
+            if block_node is not None and block_node(m):
+                continue
+            key = (m.id, kn)
+            if key in prev:
+                continue
+            prev[key] = (cur.id, known, k)
+            dq.append((m, kn))
+    return None
